@@ -435,7 +435,8 @@ namespace occa {
 
       const std::string identifier = str();
 
-      int type = shallowPeek();
+      // An encoding prefix has to touch its quote: [L "a"] is the identifier L and a string
+      const char next = *fp.start;
       popAndRewind();
 
       // sizeof, new, delete, throw
@@ -444,14 +445,14 @@ namespace occa {
       };
 
       // [u8R]"foo" or [u]'foo'
-      if (type & tokenType::string) {
+      if (next == '"') {
         const int encoding = getStringEncoding(identifier);
         if (encoding) {
           return (tokenType::string |
                   (encoding << tokenType::encodingShift));
         }
       }
-      if (type & tokenType::char_) {
+      if (next == '\'') {
         const int encoding = getCharacterEncoding(identifier);
         if (encoding) {
           return (tokenType::char_ |
